@@ -323,6 +323,22 @@ def run(tier, seed):
                 jid = len(accept_jobs) + 1
                 accept_jobs.append({"id": jid, "prog": prog, "select": sel, "given": g2, "entrypoint": IR.NONE})
                 plan.append((jid, i, g2, None, "omit-seed:" + "+".join(sorted(grp))))
+        if "+all-seeds-bound" in kind and groups:
+            # a cycle one of whose entry points has EVERY seed pre-filled by bind() needs nothing from the caller any more
+            # (the entry points of it that are still listed are alternatives, not obligations); the other cycles still do
+            try:
+                rs0, _ = specs.real_spec(dict(prog, bound=[]))
+                pre = [set(g0) for g0 in scc_groups(prog, rs0["entry"])
+                       if any(rs0["entry"][n] and set(rs0["entry"][n]) <= bound for n in g0)]
+            except Exception:  # noqa: BLE001
+                pre = []
+            if pre:
+                given = set(rs["required"])
+                for grp in groups:
+                    if not any(set(grp) <= g0 for g0 in pre):
+                        given |= set(entries[minimal(grp)])
+                if ent_r == ent_s:
+                    picks.append((sorted(given - bound), None))
         for given, e in picks:
             jid = len(accept_jobs) + 1
             accept_jobs.append({"id": jid, "prog": prog, "select": sel, "given": given, "entrypoint": e or IR.NONE})
